@@ -79,6 +79,40 @@ def two_processes(k1, k2, e):
     sx.require(anp.terms_equal(t, want), "distinct-arrays-mistaken-for-one-another", f"got {t}")
 
 
+def shipped_alone(k1, k2, e, fin):
+    """process 2 has built (and planned / finalized) its own array b; an array a built by the same kind of program in process 1 is
+    shipped in and planned ON ITS OWN: nothing is merged, so whatever names a and b share, the plan made for a must be a's plan --
+    its own storage, its own source, its own operation -- never something remembered from planning b"""
+    import cubed.array_api as xp
+    from cubed.core.plan import arrays_to_plan
+
+    G.install()
+    G.reset_names()  # process 1
+    x = G.stub_array("x", (4,), (2,))
+    for _ in range(sx.conc(k1)):
+        xp.negative(x)
+    a = xp.negative(x)
+    G.reset_names()  # process 2
+    y = G.stub_array("y", (4,), (2,))
+    for _ in range(sx.conc(k2)):
+        xp.negative(y)
+    b = xp.negative(y)
+    f = sx.conc(fin)
+    pb_ = arrays_to_plan(b)
+    if f >= 1:
+        pb_._finalize(optimize_graph=(f == 2))  # b.plan() / b.visualize() / b.compute() all finalize
+    pa = arrays_to_plan(a)
+    fa = pa._finalize(optimize_graph=(f == 2))
+    sx.assume(e < 4)
+    dag = fa.dag
+    sx.require(a.name in dag, "plan-of-the-shipped-array-does-not-contain-it", a.name)
+    tgt = dag.nodes[a.name].get("target")
+    sx.require(tgt is a._zarray, "plan-of-the-shipped-array-uses-another-array's-storage", f"{a.name}: target {tgt!r} is not the shipped array's own")
+    ev = G.Evaluator(dag)
+    t = ev.elem_of(a.name, (e,))
+    sx.require(anp.terms_equal(t, ("fn", "negative", (("elem", "x", (e,)),))), "shipped-array-computes-another-array's-values", f"got {t}")
+
+
 def public_replay(model):
     """the two-process scenario through the public API with real cloudpickle and real computation"""
     import subprocess
@@ -135,4 +169,9 @@ def obligations(tier):
                  functions=[ca.gensym, cp.gensym, pb.gensym, cp.Plan._new, cp.arrays_to_dag, pb.general_blockwise, pb.fuse_blockwise_specs], wall_s=wall,
                  bounds=f"each process had built 0..{K} other arrays before; one shipped array combined with one local array",
                  outside="pickle fidelity; deeper shared ancestry", stubs=["geom"], public_replay=public_replay, witness_rule=lambda m: True))
+    o.append(Obl("shipped-alone", shipped_alone, [("k1", 0, K), ("k2", 0, K), ("e", 0, 3), ("fin", 0, 2)],
+                 functions=[ca.gensym, cp.gensym, pb.gensym, cp.Plan._new, cp.arrays_to_plan, cp.Plan._finalize], wall_s=wall,
+                 bounds=f"each process had built 0..{K} other arrays before; the receiving process has planned / finalized (with and without optimization) its own array first; "
+                        "the shipped array is then finalized on its own",
+                 outside="pickle fidelity", stubs=["geom"], witness_rule=lambda m: m["k1"] == m["k2"] and m["fin"] >= 1))
     return o
